@@ -10,13 +10,16 @@ SIG = ('red', 'bold')
 TA, TB = 'a b', 'b a'
 
 
+WIDE = {'on': False}
+
+
 def operand(text, si, ri):
     s = AnsiString(text)
-    st = choose(si, SIG)
+    st = choose(si, SIG + ('blue',) if WIDE['on'] else SIG)
     if st is None:
         return None
     rs = ranges(len(text))
-    r = choose(ri, (rs[0], rs[len(text) - 1], rs[-1], rs[len(text)]))       # first char, whole, last char, inner
+    r = choose(ri, rs if WIDE['on'] else (rs[0], rs[len(text) - 1], rs[-1], rs[len(text)]))       # first char, whole, last char, inner
     if r is None:
         return None
     s.apply_formatting(st, r[0], r[1])
@@ -190,7 +193,8 @@ def _one(f, name, a1, ar, b1, br, mm, dr):
     return None
 
 
-def h_op(op: int, a1: int, ar: int, b1: int, br: int):
+def h_op(op: int, a1: int, ar: int, b1: int, br: int, wide=False):
+    WIDE['on'] = bool(wide)
     """Operand shapes are solver-enumerated; the 8 follow-up mutations x 3 directions are looped inside (fresh operands each)."""
     o = choose(op, OPS)
     if o is None:
@@ -208,7 +212,8 @@ def h_op(op: int, a1: int, ar: int, b1: int, br: int):
     return True
 
 
-def h_inplace(op: int, a1: int, ar: int, m: int):
+def h_inplace(op: int, a1: int, ar: int, m: int, wide=False):
+    WIDE['on'] = bool(wide)
     o = choose(op, INPLACE)
     if o is None:
         return None
@@ -281,7 +286,7 @@ BOUNDS = {
     'quick': '%d operations (every non-in-place method, +, join, slicing, iteration, conversions, replace with str/AnsiString/AnsiStr replacement) on operands '
              '"a b" / "b a" with red|bold on 4 ranges each (incl. equal settings at the seam) x 8 follow-up mutations x 3 directions (mutate result / receiver / argument); '
              '%d in-place variants; settings-list arguments through 6 entry points' % (len(OPS), len(INPLACE)),
-    'thorough': 'same product (exhausted in quick)',
+    'thorough': 'operands with red|bold|blue on all 6 canonical ranges (18 x 18 operand pairs per operation)',
 }
 OUTSIDE = 'operands outside the 8x8 shapes; mutation sequences longer than one step after the operation'
 ASSUMPTIONS = []
@@ -290,9 +295,10 @@ KINDS = 'E: operation, operand shapes, mutation kind, direction'
 
 def obligations(tier):
     obs = [selftest_ob()]
+    w = tier != 'quick'
     for op in range(len(OPS)):
-        obs.append(Ob('op/%s' % OPS[op][0], h_op, dict(op=op), need=('mutated-result', 'mutated-receiver', 'mutated-argument'), budget=900,
-                      bounds='operation %s' % OPS[op][0], kinds=KINDS))
-    obs.append(Ob('inplace', h_inplace, {}, need=('inplace',), budget=900, bounds='%d in-place variants' % len(INPLACE), kinds=KINDS))
+        obs.append(Ob('op/%s' % OPS[op][0], h_op, dict(op=op, wide=w), need=('mutated-result', 'mutated-receiver', 'mutated-argument'), budget=900 if not w else 3000,
+                      bounds='operation %s%s' % (OPS[op][0], ', operands red|bold|blue on all 6 ranges' if w else ''), kinds=KINDS))
+    obs.append(Ob('inplace', h_inplace, dict(wide=w), need=('inplace',), budget=900, bounds='%d in-place variants' % len(INPLACE), kinds=KINDS))
     obs.append(Ob('settings-arg', h_settings_arg, {}, need=('settings-arg',), budget=300, bounds='6 entry points', kinds=KINDS))
     return obs
